@@ -29,7 +29,7 @@ pub mod compilation_bridge {
 
     pub use crate::instruction::{split_string, split_string_v2};
 
-    pub use crate::file::{MScriptFile, MScriptFileBuilder};
+    pub use crate::file::{spelled_with_slashes, MScriptFile, MScriptFileBuilder};
     pub use crate::instruction::Instruction;
 
     pub use crate::instruction_constants::id;
